@@ -4,6 +4,8 @@ import json, os
 V = os.path.dirname(os.path.dirname(os.path.abspath(__file__)))
 TECH = "machine-checked proof in Coq 8.16 over a hand-written executable model; model tied to the current source by a differential correspondence run (Go harness via -overlay vs vm_compute of the model) and, where noted, go/ast translators; property monitor evaluated in Coq on implementation traces"
 CLAIMED = {
+ "C13": ("authenticated <-> spec and refuse <-> spec for record sets and chains of any size with the TLSA matcher and the X.509 verifier abstract, neutrality of unusable records, absence of panics, TA needing a matching CA certificate, the CheckConn error mapping and the AD-only / fail-closed behaviour of the discovery are kernel-checked; verifyDANE, CheckConn and discoverTLSA are compared with the model on generated real certificate chains / record sets and on 140 DNS zone shapes served by a mock DNSSEC server.",
+         "Trusted: Coq kernel, Go harness, oracle tables recorded from miekg TLSA.Verify and crypto/x509 (all root subsets), mock DNS server semantics for the discovery view; TLS handshake internals are not modelled."),
  "C07": ("pass <-> aligned passing identifier, temperror <-> undecided, none when not evaluated, action = published policy, fail-closed on temporary DNS failure and bad From never passing are kernel-checked for result lists of any length and any public-suffix list; the model (verdict, action, direct EvaluateAlignment) is compared with the real verifier + checkRunner.applyResults on a structured sweep and generated cases.",
          "Trusted: Coq kernel, Go harness with scripted resolver, public-suffix oracle tables recorded per case, library parsing of records / From headers; pct other than absent/100 not exercised. Theorems assume one SPF result (as the property quantifies)."),
  "C16": ("Theorems over error trees of any depth (wrapErr, toSMTPErr, helper codes, reject directive) are kernel-checked; a generated theorem covers every SMTP error literal of the current tree; the model is compared with the real conversions (wire form through go-smtp) on generated error trees. Proof is the right level because the claim quantifies over all error values and all literals.",
